@@ -249,8 +249,7 @@ func (g *goBuilder) value(t Term) string {
 	case *types.Struct:
 		si := g.reg.StructInfo(t.T)
 		if si.Opaque {
-			g.fail = "opaque external struct " + g.typeStr(t.T)
-			return g.typeStr(t.T) + "{}"
+			return g.typeStr(t.T) + "{}" // zero value of a library struct (mutexes, buffers)
 		}
 		if tn, ok := t.T.(*types.Named); ok && tn.Obj().Pkg() != g.pkg {
 			for _, f := range si.Fields {
@@ -281,8 +280,13 @@ func (g *goBuilder) value(t Term) string {
 		g.fail = "non-nil interface value"
 		return "nil"
 	case *types.Map:
-		g.fail = "map value"
-		return "nil"
+		isnil, _ := g.s.value(g.reg.isNil(t))
+		if isnil == "true" {
+			return "nil"
+		}
+		return g.typeStr(t.T) + "{}" // contents are not enumerated from the model
+	case *types.Chan:
+		return "make(" + g.typeStr(t.T) + ", 8)"
 	}
 	g.fail = "unsupported input type " + g.typeStr(t.T)
 	return "nil"
@@ -503,13 +507,36 @@ func (r *Runner) replayObligation(prop string, o *Obligation) (*ReplayRecord, st
 	defer sess.close()
 	g := &goBuilder{s: sess, reg: r.w.Reg, pkg: fc.pkg.Types, imports: map[string]bool{}}
 	sig := fc.obj.Type().(*types.Signature)
+	if fc.contract.Opts["replayimports"] != "" {
+		for _, imp := range strings.Fields(fc.contract.Opts["replayimports"]) {
+			g.imports[imp] = true
+		}
+	}
 	var argExprs []string
 	recvExpr := ""
+	fileParam := ""
+	if len(fc.havocSources) > 0 {
+		// the function decodes a file into a value the verifier treats as arbitrary: the model's
+		// value is serialised with encoding/json and handed over as the file
+		hv := g.value(fc.havocSources[0])
+		g.imports["encoding/json"] = true
+		g.imports["os"] = true
+		g.pre = append(g.pre, "vrfH := "+hv, "vrfData, _ := json.Marshal(vrfH)", "vrfFile, _ := os.CreateTemp(\"\", \"vrf\")", "vrfFile.Write(vrfData)", "vrfFile.Close()", "defer os.Remove(vrfFile.Name())")
+		rec.Inputs = append(rec.Inputs, "file content = json.Marshal("+g.canon(fc.havocSources[0], 0)+")")
+		for i := 0; i < sig.Params().Len(); i++ {
+			if isString(sig.Params().At(i).Type()) {
+				fileParam = fc.paramNames[i+b2i(sig.Recv() != nil)]
+			}
+		}
+	}
 	for i, in := range fc.inputs {
 		if strings.HasPrefix(in.Name, "global ") {
 			continue
 		}
 		v := g.value(in.Term)
+		if in.Name == fileParam && fileParam != "" {
+			v = "vrfFile.Name()"
+		}
 		rec.Inputs = append(rec.Inputs, in.Name+" = "+g.canon(in.Term, 0))
 		if sig.Recv() != nil && i == 0 {
 			recvExpr = v
@@ -562,6 +589,10 @@ func (r *Runner) replayObligation(prop string, o *Obligation) (*ReplayRecord, st
 		b.WriteString("\t\t" + strings.Join(resNames, ", ") + " := " + call + "\n")
 	} else {
 		b.WriteString("\t\t" + call + "\n")
+	}
+	if probe := fc.contract.Opts["replayprobe"]; probe != "" {
+		// contract-supplied probe: statements that exercise the result the way callers do
+		b.WriteString("\t\t" + strings.ReplaceAll(probe, "result", "vrfOut0") + "\n")
 	}
 	b.WriteString("\t\tvar parts []string\n")
 	for i, rn := range resNames {
